@@ -98,6 +98,11 @@ class Ctl:
         self.runaway = False
         self.removed = set()
         self.submitted_c = set()
+        self.released_early = set()  # thread nodes let through WHILE the scheduler was running a main-thread node
+        self.exited = set()
+        self.inline_p = 0.15  # probability of such a release per inline execution (random schedules only)
+        self.inline_plan = None  # replay: one list of ids per inline execution
+        self.inline_choices = []
 
     def ev(self, *e):
         with self.lock:
@@ -185,6 +190,8 @@ def mknode(name, ret, **kw):
 
     def f(*a, **k):
         ctl = cur()
+        if ctl is not None and getattr(ctl, "slow", 0):
+            time.sleep(ctl.slow)  # uncontrolled runs with node bodies that take real time
         if ctl is not None and name in ctl.fails:
             raise NodeBoom(name)
         return ret(*a, **k) if callable(ret) else ret
@@ -224,7 +231,7 @@ if not MISSING:
         ctl.ev("WAIT", "C", return_when, tuple(ids), tuple(sorted(runnable)), tuple(sorted(graph.nodes)))
         if ids and not ctl.free_run:
             t0 = time.time()
-            while not set(ids) <= ctl.entered:
+            while not (set(ids) - ctl.released_early) <= ctl.entered:
                 time.sleep(0.0002)
                 if time.time() - t0 > ENTER_TIMEOUT:
                     ctl.give_up("in-flight thread nodes never entered: %r" % (sorted(set(ids) - ctl.entered),))
@@ -347,6 +354,27 @@ if not MISSING:
         with ctl.lock:
             ctl.inside += 1
         ctl.ev("XENTER", nid, inline, seen, threading.get_ident())
+        if inline and not ctl.free_run:
+            # thread nodes may complete (or fail) while the scheduler is busy running this main-thread node
+            with ctl.lock:
+                cands = sorted(x for x in ctl.entered if x in ctl.submitted_c)
+            rel = []
+            if ctl.inline_plan is not None:
+                rel = [r_ for r_ in (ctl.inline_plan.pop(0) if ctl.inline_plan else []) if r_ in cands]
+            elif ctl.rng is not None and ctl.choose is None and cands and ctl.rng.random() < ctl.inline_p:
+                rel = ctl.rng.sample(cands, ctl.rng.randint(1, len(cands)))
+            ctl.inline_choices.append(list(rel))
+            for r_ in rel:
+                with ctl.lock:
+                    ctl.entered.discard(r_)
+                    ctl.released_early.add(r_)
+                if r_ in ctl.gates:
+                    ctl.gates[r_].set()
+            t0 = time.time()
+            while rel and not set(rel) <= ctl.exited and time.time() - t0 < ENTER_TIMEOUT:
+                time.sleep(0.0002)
+            if rel:
+                time.sleep(0.003)  # the worker stores the outcome in the future right after execute returns
         try:
             if not inline:
                 with ctl.lock:
@@ -375,6 +403,7 @@ if not MISSING:
                 ctl.inside -= 1
                 if not inline:
                     ctl.n_xexit_worker += 1
+                    ctl.exited.add(nid)
 
     N.ExecNode.execute = execute
 
@@ -452,6 +481,7 @@ def run_controlled(thunk, ctl, is_async=False):
     box = {}
 
     def body():
+        ctl.invoker = threading.get_ident()  # the thread that invokes the DAG (for an AsyncDAG: the event-loop thread)
         try:
             if is_async:
                 box["st"] = ("ok", asyncio.run(thunk()))
